@@ -4,7 +4,8 @@ import P2PVerif.Lemmas.Hub
 import P2PVerif.Lemmas.Ask
 /-! # C11 — an Ask returns its own handler's answer or an error, never another's
 Property theorems only: the AskHub rendezvous (shared by vswarm, p2pmux, mbapp's server side), the mbapp
-request/reply matching, and the length-prefixed frames of quicswarm. -/
+request/reply matching, and the length-prefixed frames of quicswarm.
+(Bound variables carry explicit types because `s.rs[i]?` alone does not let Lean infer them.) -/
 namespace P2PVerif.C11
 open P2PVerif P2PVerif.Hub
 
@@ -12,15 +13,15 @@ open P2PVerif P2PVerif.Hub
     request (the callback that was started with deliverer j finished with n), for any number of outstanding
     asks and any interleaving; a failed one was never seen by a handler. -/
 theorem ask_returns_own_answer (ls : List Lbl) (s : St) (hr : run Skel.ask {} ls = some s) :
-    (∀ j d n, s.ds[j]? = some d → d.pc = .done .ok n → (j, n) ∈ s.finished) ∧
+    (∀ (j : Nat) (d : D) (n : Nat), s.ds[j]? = some d → d.pc = .done .ok n → (j, n) ∈ s.finished) ∧
     (∀ j n n', (j, n) ∈ s.finished → (j, n') ∈ s.finished → n = n') ∧
-    (∀ j d r n, s.ds[j]? = some d → d.pc = .done r n → r ≠ .ok → j ∉ s.started) :=
+    (∀ (j : Nat) (d : D) (r : Res) (n : Nat), s.ds[j]? = some d → d.pc = .done r n → r ≠ .ok → j ∉ s.started) :=
   Hub.ask_returns_own_answer ls s hr
 
 /-- ⊢ a closed destination yields an error, never an empty success: on the current skeleton no deliverer
     finishes with a nil error on a closed hub. -/
 theorem ask_closed_is_error (ls : List Lbl) (s : St) (hr : run Skel.ask {} ls = some s) :
-    ∀ j d n, s.ds[j]? = some d → d.pc ≠ .done .nilErr n :=
+    ∀ (j : Nat) (d : D) (n : Nat), s.ds[j]? = some d → d.pc ≠ .done .nilErr n :=
   Hub.ask_closed_is_error ls s hr
 
 /-- ⊢ a response that does not fit the caller's buffer is an error, not a truncated success (mbapp `ask.complete`
